@@ -554,8 +554,14 @@ where
             }
             "dest_write" => dest.write().map(|_| ()).map_err(|e| viol("result", format!("write: {e}")))?,
             "dest_reimport" => {
-                dest.flush().map_err(|e| viol("result", format!("flush: {e}")))?;
-                db.flush().map_err(|e| Fail::Harness(format!("db flush: {e}")))?;
+                // `flush: false` = the column is dropped as it is (a restart without a final flush)
+                if op["flush"].as_bool().unwrap_or(true) {
+                    dest.flush().map_err(|e| viol("result", format!("flush: {e}")))?;
+                    db.flush().map_err(|e| Fail::Harness(format!("db flush: {e}")))?;
+                } else {
+                    stored_under = None;
+                    stats.bump("probe.dest_reimported_without_flush");
+                }
                 drop(dest);
                 dest = EagerVec::import(&db, "dest", Version::new(own_version)).map_err(|e| viol("result", format!("re-import: {e}")))?;
                 stats.bump("probe.dest_reimported");
@@ -768,7 +774,7 @@ impl Check for C19Check {
             // a version change whose computation stores nothing, a restart, then the real computation
             ops.push(json!({"op":"bump_source_version","by":rng.below(3),"down":rng.chance(1, 3)}));
             ops.push(json!({"op":"compute_nothing"}));
-            ops.push(json!({"op":"dest_reimport"}));
+            ops.push(json!({"op":"dest_reimport","flush":rng.chance(1, 3)}));
         }
         ops.push(json!({"op":"compute","max_from":rng.next() >> 20}));
         let knob = *rng.pick(&[8usize, 24, 100, 512, 1 << 30]);
